@@ -130,6 +130,10 @@ func init() {
 			return nil
 		},
 		ndPkg + "AllocBytes": func(m *Machine, c *frame, a []value) value { return m.allocBytes },
+		ndPkg + "Concurrent": func(m *Machine, c *frame, a []value) value {
+			m.callValue(c, a[0], nil, nil)
+			return nil
+		},
 		ndPkg + "Go": func(m *Machine, c *frame, a []value) value {
 			m.goThread(a[0])
 			return nil
